@@ -40,3 +40,234 @@ Print Assumptions upper_high_bytes.
 Theorem char_byte_roundtrip : forall l, is_bytes l = true -> strByte (strChar l) (Some 1) (Some (-1)) = l.
 Proof. exact char_byte_roundtrip_lemma. Qed.
 Print Assumptions char_byte_roundtrip.
+
+(* ---------- string.format (FormatModel.v: fmt_dir false = C's printf, fmt_dir true = gopher-lua) ---------- *)
+From GL Require Import Str.FormatModel Str.FormatFacts.
+
+Theorem format_d_roundtrip : forall go z, in_int64 z = true ->
+  exists s, format go [37; 100] [zarg z] = FOk s /\ parse_int s = z.
+Proof. exact format_d_roundtrip_lemma. Qed.
+Print Assumptions format_d_roundtrip.
+
+Theorem format_digits_value : forall base upper n, 2 <= base <= 16 -> 0 <= n ->
+  of_digits base (digits base upper n) = n.
+Proof. exact of_digits_digits. Qed.
+Print Assumptions format_digits_value.
+
+Theorem format_width : forall go sp a out,
+  fmt_dir go sp a = Some out -> owidth (d_width sp) <= len out.
+Proof. exact format_width_lemma. Qed.
+Print Assumptions format_width.
+
+Theorem format_left_right_pad : forall go sp a body,
+  f_minus sp = true \/ f_zero sp = false ->
+  fmt_dir go (set_width sp None) a = Some body ->
+  fmt_dir go sp a = Some (pad (f_minus sp) (d_width sp) body).
+Proof. exact format_left_right_pad_lemma. Qed.
+Print Assumptions format_left_right_pad.
+
+Theorem format_zero_pad_digits : forall go sp z w,
+  f_zero sp = true -> f_minus sp = false -> d_prec sp = None -> d_width sp = Some w ->
+  let sign := sign_of sp (z <? 0) in
+  let ds := digits 10 false (Z.abs z) in
+  fmt_signed go sp z = sign ++ zeros (w - len sign - len ds) ++ ds /\
+  len (fmt_signed go sp z) = Z.max w (len sign + len ds) /\
+  of_digits 10 (zeros (w - len sign - len ds) ++ ds) = Z.abs z.
+Proof. exact format_zero_pad_digits_lemma. Qed.
+Print Assumptions format_zero_pad_digits.
+
+Theorem format_precision_digits : forall go sp z p,
+  d_prec sp = Some p -> (p <> 0 \/ z <> 0) ->
+  let ds := digits 10 false (Z.abs z) in
+  fmt_signed go sp z =
+    pad (f_minus sp) (d_width sp) (sign_of sp (z <? 0) ++ zeros (p - len ds) ++ ds) /\
+  len (zeros (p - len ds) ++ ds) = Z.max p (len ds) /\
+  of_digits 10 (zeros (p - len ds) ++ ds) = Z.abs z.
+Proof. exact format_precision_digits_lemma. Qed.
+Print Assumptions format_precision_digits.
+
+Theorem format_percent : forall go args, format go [37; 37] args = FOk [37].
+Proof. exact format_percent_lemma. Qed.
+Print Assumptions format_percent.
+
+Theorem format_hex_octal_roundtrip : forall go z, in_int64 z = true ->
+  fmt_dir go (plain 120) (zarg z) = Some (digits 16 false (z mod two64)) /\
+  fmt_dir go (plain 88) (zarg z) = Some (digits 16 true (z mod two64)) /\
+  fmt_dir go (plain 111) (zarg z) = Some (digits 8 false (z mod two64)) /\
+  of_digits 16 (digits 16 false (z mod two64)) = z mod two64 /\
+  of_digits 16 (digits 16 true (z mod two64)) = z mod two64 /\
+  of_digits 8 (digits 8 false (z mod two64)) = z mod two64 /\
+  (0 <= z -> z mod two64 = z) /\ (z < 0 -> z mod two64 = z + two64).
+Proof. exact format_hex_roundtrip_lemma. Qed.
+Print Assumptions format_hex_octal_roundtrip.
+
+Theorem format_extra_args_ignored : forall go f args extra o,
+  format go f args = FOk o -> format go f (args ++ extra) = FOk o.
+Proof. exact format_extra_args_ignored_lemma. Qed.
+Print Assumptions format_extra_args_ignored.
+
+Theorem format_missing_arg_errors : forall go f args,
+  ndirs (parse_fmt (length f) f) > len args ->
+  format go f args = FErr \/ format go f args = FUnsupported.
+Proof. exact format_missing_arg_errors_lemma. Qed.
+Print Assumptions format_missing_arg_errors.
+
+(* gopher-lua's string.format (go = true) is C's printf (go = false) on every directive C defines,
+   outside the three listed deviations (known findings C15-8, C15-11, C15-12) *)
+Theorem format_impl_eq_spec : forall sp a,
+  c_defined sp a = true -> known_dev sp a = false -> fmt_dir true sp a = fmt_dir false sp a.
+Proof. exact format_impl_eq_spec_lemma. Qed.
+Print Assumptions format_impl_eq_spec.
+
+(* the deviations are real: C15-8, C15-11, C15-12 *)
+Theorem format_impl_eq_spec_refuted :
+  exists sp a, c_defined sp a = true /\ fmt_dir true sp a <> fmt_dir false sp a.
+Proof. exact format_impl_neq_spec_witness. Qed.
+Print Assumptions format_impl_eq_spec_refuted.
+
+(* ---------- math library (MathWModel.v) ---------- *)
+From GL Require Import Str.MathWModel Str.MathWFacts.
+
+Theorem max_spec : forall num ltb (ok : num -> Prop),
+  (forall a, ok a -> ltb a a = false) ->
+  (forall a b, ok a -> ok b -> ltb a b = true -> ltb b a = false) ->
+  (forall a b c, ok a -> ok b -> ok c -> le num ltb a b -> ltb b c = true -> ltb a c = true) ->
+  forall x r, Forall ok (x :: r) ->
+  exists res, mathMax num ltb (x :: r) = MOk [res] /\ In res (x :: r) /\
+              forall a, In a (x :: r) -> le num ltb a res.
+Proof. exact max_spec_lemma. Qed.
+Print Assumptions max_spec.
+
+Theorem min_spec : forall num ltb (ok : num -> Prop),
+  (forall a, ok a -> ltb a a = false) ->
+  (forall a b, ok a -> ok b -> ltb a b = true -> ltb b a = false) ->
+  (forall a b c, ok a -> ok b -> ok c -> ltb a b = true -> le num ltb b c -> ltb a c = true) ->
+  forall x r, Forall ok (x :: r) ->
+  exists res, mathMin num ltb (x :: r) = MOk [res] /\ In res (x :: r) /\
+              forall a, In a (x :: r) -> le num ltb res a.
+Proof. exact min_spec_lemma. Qed.
+Print Assumptions min_spec.
+
+Theorem random_in_range : forall num (toInt : num -> Z) ofInt draw,
+  (forall k r, draw k = Some r -> 0 <= r < k) ->
+  (forall k, 0 < k -> exists r, draw k = Some r) ->
+  forall m n rest, toInt m <= toInt n ->
+  exists r, mathRandom num toInt ofInt draw (m :: n :: rest) = MOk [ofInt r] /\
+            toInt m <= r <= toInt n.
+Proof. exact random_in_range_lemma. Qed.
+Print Assumptions random_in_range.
+
+Theorem random_empty_interval_errors : forall num (toInt : num -> Z) ofInt draw,
+  (forall k, k <= 0 -> draw k = None) ->
+  forall m n rest, toInt n < toInt m ->
+  mathRandom num toInt ofInt draw (m :: n :: rest) = MErr.
+Proof. exact random_empty_interval_errors_lemma. Qed.
+Print Assumptions random_empty_interval_errors.
+
+Theorem random1_in_range : forall num (toInt : num -> Z) ofInt draw,
+  (forall k r, draw k = Some r -> 0 <= r < k) ->
+  (forall k, 0 < k -> exists r, draw k = Some r) ->
+  forall n, 1 <= toInt n ->
+  exists r, mathRandom num toInt ofInt draw [n] = MOk [ofInt r] /\ 1 <= r <= toInt n.
+Proof. exact random1_in_range_lemma. Qed.
+Print Assumptions random1_in_range.
+
+Theorem floor_ceil_bracket : forall num ltb (Floor Ceil : num -> num) (add : num -> num -> num) (one : num)
+                                    (finite integral : num -> Prop),
+  (forall x, finite x ->
+     integral (Floor x) /\ le num ltb (Floor x) x /\ ltb x (add (Floor x) one) = true) ->
+  (forall x, finite x ->
+     integral (Ceil x) /\ le num ltb x (Ceil x) /\ ltb (Ceil x) (add x one) = true) ->
+  forall x rest, finite x ->
+  (exists r, mathFloor num Floor (x :: rest) = MOk [r] /\
+             integral r /\ le num ltb r x /\ ltb x (add r one) = true) /\
+  (exists r, mathCeil num Ceil (x :: rest) = MOk [r] /\
+             integral r /\ le num ltb x r /\ ltb r (add x one) = true).
+Proof. exact floor_ceil_bracket_lemma. Qed.
+Print Assumptions floor_ceil_bracket.
+
+Theorem fmod_sign : forall num ltb (Mod : num -> num -> num) (absn : num -> num) (finite is_zero : num -> Prop)
+                           (same_sign : num -> num -> Prop),
+  (forall x y, finite x -> finite y -> ~ is_zero y ->
+     same_sign (Mod x y) x /\ ltb (absn (Mod x y)) (absn y) = true) ->
+  forall x y rest, finite x -> finite y -> ~ is_zero y ->
+  exists r, mathFmod num Mod (x :: y :: rest) = MOk [r] /\
+            same_sign r x /\ ltb (absn r) (absn y) = true.
+Proof. exact fmod_sign_lemma. Qed.
+Print Assumptions fmod_sign.
+
+Theorem modf_recompose : forall num ltb (Modf : num -> num * num) is_inf zero_like
+                                (add : num -> num -> num) (one : num) (absn : num -> num)
+                                (finite integral : num -> Prop) (same_sign : num -> num -> Prop),
+  (forall x, finite x ->
+     integral (fst (Modf x)) /\ add (fst (Modf x)) (snd (Modf x)) = x /\
+     ltb (absn (snd (Modf x))) one = true /\
+     same_sign (fst (Modf x)) x /\ same_sign (snd (Modf x)) x) ->
+  (forall x, finite x -> is_inf x = false) ->
+  forall x rest, finite x ->
+  exists i f, mathModf num Modf is_inf zero_like (x :: rest) = MOk [i; f] /\
+              integral i /\ add i f = x /\ ltb (absn f) one = true /\
+              same_sign i x /\ same_sign f x.
+Proof. exact modf_recompose_lemma. Qed.
+Print Assumptions modf_recompose.
+
+Theorem modf_infinity : forall num (Modf : num -> num * num) is_inf zero_like x rest,
+  is_inf x = true -> mathModf num Modf is_inf zero_like (x :: rest) = MOk [x; zero_like x].
+Proof. exact modf_inf_lemma. Qed.
+Print Assumptions modf_infinity.
+
+Theorem frexp_recompose : forall num ltb ofInt (Frexp : num -> num * Z) (Ldexp : num -> Z -> num)
+                                 (one half : num) (absn : num -> num) (finite is_zero : num -> Prop),
+  (forall x, finite x -> ~ is_zero x ->
+     Ldexp (fst (Frexp x)) (snd (Frexp x)) = x /\
+     le num ltb half (absn (fst (Frexp x))) /\ ltb (absn (fst (Frexp x))) one = true) ->
+  forall x rest, finite x -> ~ is_zero x ->
+  exists m e, mathFrexp num Frexp ofInt (x :: rest) = MOk [m; ofInt e] /\
+              Ldexp m e = x /\ le num ltb half (absn m) /\ ltb (absn m) one = true.
+Proof. exact frexp_recompose_lemma. Qed.
+Print Assumptions frexp_recompose.
+
+Theorem ldexp_spec : forall num (toInt : num -> Z) (Ldexp : num -> Z -> num) x e rest,
+  mathLdexp num Ldexp toInt (x :: e :: rest) = MOk [Ldexp x (toInt e)] /\
+  mathLdexp num Ldexp toInt [x] = MErr /\ mathLdexp num Ldexp toInt [] = MErr.
+Proof. exact ldexp_spec_lemma. Qed.
+Print Assumptions ldexp_spec.
+
+(* the exact dyadic reference functions that stand in for Go's math.* when the model is run *)
+Theorem floor_ref_bracket : forall neg m e, 0 < m -> e < 0 ->
+  let s := sgn_m neg m in
+  let f := s / 2 ^ (- e) in
+  ref_floor (NFin neg m e) = of_Z f /\ f * 2 ^ (- e) <= s < (f + 1) * 2 ^ (- e).
+Proof. exact ref_floor_exact. Qed.
+Print Assumptions floor_ref_bracket.
+
+Theorem ceil_ref_bracket : forall neg m e, 0 < m -> e < 0 ->
+  let s := sgn_m neg m in
+  let c := - ((- s) / 2 ^ (- e)) in
+  (c - 1) * 2 ^ (- e) < s <= c * 2 ^ (- e) /\
+  ref_ceil (NFin neg m e) = (if c =? 0 then NFin neg 0 0 else of_Z c).
+Proof. exact ref_ceil_exact. Qed.
+Print Assumptions ceil_ref_bracket.
+
+Theorem fmod_ref_exact : forall s1 m1 e1 s2 m2 e2, 0 <= m1 -> 0 < m2 ->
+  let '(a, b, e0) := align m1 e1 m2 e2 in
+  ref_fmod (NFin s1 m1 e1) (NFin s2 m2 e2) = NFin s1 (a mod b) e0 /\
+  0 <= a mod b < b /\ (b | a - a mod b) /\
+  a = m1 * 2 ^ (e1 - e0) /\ b = m2 * 2 ^ (e2 - e0) /\ e0 <= e1 /\ e0 <= e2.
+Proof. exact ref_fmod_exact. Qed.
+Print Assumptions fmod_ref_exact.
+
+Theorem modf_ref_recompose : forall neg m e, 0 <= m -> e < 0 ->
+  let q := m / 2 ^ (- e) in
+  let r := m mod 2 ^ (- e) in
+  ref_modf (NFin neg m e) = (NFin neg q 0, NFin neg r e) /\
+  m = q * 2 ^ (- e) + r /\ 0 <= r < 2 ^ (- e).
+Proof. exact ref_modf_exact. Qed.
+Print Assumptions modf_ref_recompose.
+
+Theorem frexp_ref_recompose : forall neg m e, 0 < m ->
+  let k := bitlen m in
+  ref_frexp (NFin neg m e) = (NFin neg m (- k), e + k) /\
+  2 ^ (k - 1) <= m < 2 ^ k /\ (- k) + (e + k) = e.
+Proof. exact ref_frexp_exact. Qed.
+Print Assumptions frexp_ref_recompose.
